@@ -18,7 +18,7 @@ EXES = ["m_drv"]
 GEN = False
 THEOREMS = ["mutex_inv", "writes_by_holder", "wire_well_bracketed", "edt_adjacent", "edt_adjacent_drivers",
             "lock_free_at_end", "release_on_raise_or_cancel", "caller_programs_wf", "progress_partial",
-            "progress_up", "progress", "caller_steps_bounded", "nobody_hangs",
+            "progress_up", "progress", "caller_steps_bounded", "nobody_hangs", "retry_resends_whole_unit",
             "k1_witness_old_serial_send"]
 TRUSTED = ["hand-written models Model/Async.lean (interleaving semantics) and Model/CallerProgram.lean "
            "(send / run_sequence of the four drivers as straight-line programs with their finally/async-with "
@@ -45,7 +45,9 @@ LEVEL_TEXT = ("Lean 4 theorems over an abstract interleaving semantics (any numb
               "lock so the wire is a concatenation of whole caller units (wire_well_bracketed), every frame needing a "
               "device type is immediately preceded on the wire by the same caller's EnableDeviceType (edt_adjacent), "
               "all resources free when every caller has finished, also after exceptions and cancellation "
-              "(lock_free_at_end, release_on_raise_or_cancel); the programs of send/run_sequence of all four drivers "
+              "(lock_free_at_end, release_on_raise_or_cancel); a send retried after a CommunicationError (HID, "
+              "exceptions off) continues with its clean-up and then the whole unit again, EnableDeviceType first "
+              "(retry_resends_whole_unit); the programs of send/run_sequence of all four drivers "
               "satisfy the static bracketing discipline for every command and every sequence (caller_programs_wf); with "
               "the connection up and the gateway answering, an unfinished caller can always step and the number of "
               "remaining caller steps strictly decreases (progress, caller_steps_bounded, nobody_hangs). "
@@ -61,7 +63,10 @@ def correspond(ctx, corr):
         "real drivers tridonic/hasseb/LUBA/SCI x caller mixes (send with/without device type, send-twice, queries, "
         "24-bit, sequences with sleep/progress/raise) x 2-4 callers started at every quiescent point x gateway reports "
         "and timers in every order (DFS prefix + seeded random), unsolicited reports, cancellation at every await; "
-        "each trace: accepted by the Lean model + mutual exclusion, contiguity, EDT adjacency, whole units, FIFO, "
+        "HID: the gateway lost (EOF | read error | failing write) at EVERY quiescent point of the fault-free run and "
+        "coming back, sends with exceptions off retried (single-fault sweep + DFS + random); "
+        "each trace: accepted by the Lean model + mutual exclusion, contiguity, EDT adjacency (also on every "
+        "retransmission), whole units, every retransmission restarts its unit from the top, FIFO, "
         "lock free, sequence closed asserted on the real objects; non-trivial = distinct event sequences")
     model = Model("m_drv") if ctx.model_available else None
     r = suite.run_configs(ctx, corr, suite.c15_configs(ctx.thorough), suite.C15_KEYS, model)
